@@ -5,7 +5,7 @@ import form
 import kinds
 from cfg import graph
 from common import Ob, OK, VIOLATED, UNDECIDED, AnalysisBroken
-from ir import fmt_term, expand_calls
+from ir import canon_minmax, fmt_term, expand_calls
 
 THIS = ('this',)
 N_FIELD = ('field', 'n', THIS)
@@ -40,6 +40,7 @@ def reachable(fn, node):
 
 def is_clamp(t, keyname):
     """std::max(first_key, key) in either order"""
+    t = canon_minmax(_strip_cast(t))
     if t[0] == 'call' and t[1] == 'std::max' and len(t[2]) == 2:
         a, b = t[2]
         return {a, b} == {FIRST_KEY, ('param', keyname)}
@@ -361,6 +362,15 @@ def rule_clamp(ctx, which, units=None):
                     break
                 p = f.sparent(p)
             t = norm_tparams(f.term(ctxt, inline=False)) if ctxt else ('none',)
+            # the clamp may be written as its defining ternary: look at the enclosing conditional expressions too
+            q = f.sparent(u)
+            while q and not (ctxt and is_clamp(t, keyname)):
+                if f.n(q)['c'] == 'ConditionalOperator':
+                    tq = canon_minmax(norm_tparams(f.term(q, inline=False)))
+                    if is_clamp(tq, keyname):
+                        ctxt, t = q, tq
+                        break
+                q = f.sparent(q)
             if ctxt and is_clamp(t, keyname):
                 n_clamp += 1
                 obs.append(Ob('CLAMP', f, u, 'raw key used only inside std::max(first_key, key)', fmt_term(t), OK, arm='clamp'))
@@ -453,7 +463,7 @@ def _strip_cast(t):
 
 def cap_check(P):
     """P must be std::min(M, I): returns (ok, description, key term used by the model)"""
-    P = _strip_cast(P)
+    P = canon_minmax(_strip_cast(P))
     if not (P[0] == 'call' and P[1] == 'std::min' and len(P[2]) == 2):
         return False, 'position is not std::min(model(key), next segment intercept): ' + fmt_term(P)[:120], None
     M, I = _strip_cast(P[2][0]), _strip_cast(P[2][1])
@@ -489,6 +499,12 @@ def _pos_sites(fn):
         t = fn.term(i, inline=False)
         if len(t[2]) == 2:
             out.append(i)
+    # the same minimum written as its defining ternary
+    for i in fn.all_ids():
+        if fn.n(i)['c'] == 'ConditionalOperator' and reachable(fn, i):
+            t = canon_minmax(fn.term(i, inline=True))
+            if t[0] == 'call' and t[1] == 'std::min' and any(isinstance(x, tuple) and x and x[0] == 'call' and str(x[1]).endswith('::operator()') for x in t[2]):
+                out.append(i)
     return out
 
 
@@ -503,7 +519,12 @@ def rule_cap(ctx, which, units=None, fnames=('search',)):
             keyname = f.params[0]['name']
             sites = []
             for i in _pos_sites(f):
-                t = norm_tparams(f.term(i, inline=True))
+                t = canon_minmax(norm_tparams(f.term(i, inline=True)))
+                if not (t[0] == 'call' and len(t) > 2 and len(t[2]) == 2):
+                    continue
+                # std::min is symmetric: put the model evaluation first
+                if _strip_cast(t[2][1])[0] == 'call' and str(_strip_cast(t[2][1])[1]).endswith('::operator()') and not (_strip_cast(t[2][0])[0] == 'call' and str(_strip_cast(t[2][0])[1]).endswith('::operator()')):
+                    t = (t[0], t[1], (t[2][1], t[2][0])) + tuple(t[3:])
                 M = _strip_cast(t[2][0])
                 if M[0] == 'call' and M[1].endswith('::operator()'):
                     sites.append((i, t))
